@@ -106,14 +106,22 @@ class Ctx:
     # ------------------------------------------------------------------ build
     def build(self, driver, race=False):
         """Build harness/cmd/<driver> against /repo's *current working tree* with -tags verif."""
-        os.makedirs(os.path.join(OUT, "bin"), exist_ok=True)
-        lock = open(os.path.join(OUT, "bin", ".lock"), "w")
+        # The module file is generated next to the binaries so that the tree under test can be
+        # /repo (default) or a scratch copy (VERIF_REPO=<dir>, used for mutation self-tests).
+        tag = "" if REPO == "/repo" else "-" + hashlib.sha1(REPO.encode()).hexdigest()[:8]
+        bindir = os.path.join(OUT, "bin" + tag)
+        os.makedirs(bindir, exist_ok=True)
+        lock = open(os.path.join(bindir, ".lock"), "w")
         fcntl.flock(lock, fcntl.LOCK_EX)
         try:
-            shutil.copyfile(os.path.join(REPO, "go.sum"), os.path.join(HARNESS, "go.sum"))
-            outp = os.path.join(OUT, "bin", driver + ("-race" if race else ""))
-            cmd = ["go", "build", "-tags", "verif"] + (["-race"] if race else []) + \
-                  ["-o", outp, "./cmd/" + driver]
+            modfile = os.path.join(bindir, "go.mod")
+            gomod = open(os.path.join(HARNESS, "go.mod")).read().replace("=> /repo", "=> " + REPO)
+            with open(modfile, "w") as f:
+                f.write(gomod)
+            shutil.copyfile(os.path.join(REPO, "go.sum"), os.path.join(bindir, "go.sum"))
+            outp = os.path.join(bindir, driver + ("-race" if race else ""))
+            cmd = ["go", "build", "-modfile=" + modfile, "-tags", "verif"] + \
+                  (["-race"] if race else []) + ["-o", outp, "./cmd/" + driver]
             p = sh(cmd, cwd=HARNESS, env=goenv(), timeout=1500, check=False)
             if p.returncode != 0:
                 raise Infra("build of driver %s failed:\n%s" % (driver, p.stdout[-6000:]))
@@ -228,6 +236,13 @@ class Ctx:
         if self._kf is None:
             p = os.path.join(VERIF, "known_findings.json")
             self._kf = json.load(open(p)) if os.path.exists(p) else []
+            d = os.path.join(VERIF, "known_findings.d")     # per-property fragments (merged into
+            if os.path.isdir(d):                            # known_findings.json by bin/mkmanifest)
+                for f in sorted(os.listdir(d)):
+                    if f.endswith(".json"):
+                        for k in json.load(open(os.path.join(d, f))):
+                            if k not in self._kf:
+                                self._kf.append(k)
         return [k for k in self._kf if k.get("property") == self.pid and k.get("status") == "open"]
 
     def report(self, key, what, replay_src=None):
@@ -317,8 +332,10 @@ class Ctx:
         ev = {"property_id": self.pid, "tier": self.tier, "seed": self.seed, "level": self.level,
               "coverage": cov, "assumptions": self.assumptions, "wall_s": round(wall, 2),
               "violations": len(self.violations)}
-        os.makedirs(os.path.join(VERIF, "evidence"), exist_ok=True)
-        with open(os.path.join(VERIF, "evidence", self.pid + ".json"), "w") as f:
+        # evidence of runs against a scratch copy (mutation self-tests) must not clobber the real one
+        evdir = os.path.join(VERIF, "evidence") if REPO == "/repo" else os.path.join(OUT, "evidence-scratch")
+        os.makedirs(evdir, exist_ok=True)
+        with open(os.path.join(evdir, self.pid + ".json"), "w") as f:
             json.dump(ev, f, indent=1, default=str)
         shutil.rmtree(self.scratch, ignore_errors=True)
         return 1 if self.violations else 0
